@@ -25,7 +25,7 @@ CLAIMED.update({
 CLAIMED.update({
  "C04": dict(technique="TLA+ spec TreeBandit.tla (+GPO/POO) model-checked with TLC with a history variable + TLC trace validation of per-round evidence diffs of the real classes",
              text="TLC explores every reward sequence and tie-break of small T-HOO/HCT/VHCT models with 'evidence of every cell = fold of the history' and 'counts sum to the rounds' as invariants; conformance validates, after every round of real runs, that exactly the credited cells change by (+1, +r, +r^2), reward-list lengths, means and VHCT variances match the exact statistics, and (wrappers) each reward reaches the serving learner or the validation score only.",
-             note="Covers T_HOO, HCT, VHCT, POO, GPO/PCT/VPCT in this round (the remaining algorithms' credit rules are stated in DESIGN.md and are being added with their specs).  Grid rewards so that sums are exact.", ref="5/C04"),
+             note="Covers all algorithms except StroquOOL (whose documented restart of reward lists is the property's stated exception; its schedule is not specified yet).  Grid rewards so that sums are exact.", ref="5/C04"),
  "C05": dict(technique="TLA+ spec TreeBandit.tla (fixed-point index, B-law, optimistic descent) model-checked with TLC + TLC trace validation on observed U/B codes with the published formulas recomputed in TLA+ to 5 units of 2^-13",
              text="Design level: exhaustive TLC runs over reward sequences and tie-breaks with B-law / stop-rule invariants and coverage of the 'threshold grew past a split cell' branch.  Code level: every pull of real runs must return the representative of a cell in PullEnds computed from the observed B-values; after every round the U of each touched cell must equal the TLA+ fixed-point evaluation of the published index (constants from 60-digit tables), untouched cells keep their value, and B = min(U, max children B) holds on every cell including the root.",
              note="Formula accuracy limited to Tol (about 6e-4; VHCT width +6%); VHCT's per-cell threshold is used as observed (its formula is model-level only).  Constant tables trusted (harness/consts.py).", ref="5/C05"),
@@ -43,6 +43,23 @@ CLAIMED.update({
  "C12": dict(technique="TLA+ spec SequOOL.tla model-checked with TLC (budgets, order, exhaustion) + literal replay of enumerated behaviours + TLC trace validation of real runs",
              text="Purely order-based, hence exact: TLC explores all reward sequences and tie-breaks for hmax in 1..4 with the per-depth budgets, open-best, child-order and frozen-recommendation properties; implementation runs for every enumerated reward sequence must literally be enumerated behaviours; Trace_Seq validates each opening and each handed-out child of runs with n up to 1000 on all partitions.",
              note="hmax = floor(n/H_n) computed with exact rationals.", ref="5/C12"),
+})
+CLAIMED.update({
+ "C11": dict(technique="TLA+ spec Zooming.tla model-checked with TLC on lattice partitions (coverage invariant under every split and hand-over) + TLC trace validation of the arm table of real runs",
+             text="TLC explores a lattice model (midpoint binary 1-D/2-D, K-ary, random cuts, dimension-wise binary) over all reward sequences, all maximal-index arms, all splits and all admissible hand-overs with 'every leaf is the cell of exactly one arm that lies inside it' as invariant; Trace_Zoom validates real runs call by call: played arm in Playable, only its statistics change and equal its own history, refinement iff the radius rule (fixed-point band aside), the arm to exactly one containing child and a fresh centre arm for every other child, coverage after every call.",
+             note="Index and radius comparisons in fixed point (2^-11) with a 6-unit band in which either outcome is accepted; containment/coverage exact (rank coded).", ref="5/C11"),
+ "C13": dict(technique="TLA+ spec VROOM.tla (rank permutation / order, probability law, credited path) checked by TLC trace validation of real runs after every pull and reward",
+             text="For every pull of real VROOM runs TLC checks that the ranks of each depth are a permutation sorted by the lower confidence value recomputed in TLA+ fixed point, that prob*h*rank = 1/C for every cell and the vector sums to one, and for every reward that the credited cells form a descending path from a ranked cell to the depth cap containing every expansion of the round and the returned point.",
+             note="No generative model (it would restate the sort); np.random.choice is trusted to honour the vector.  Band of 6 units (2^-12) on the order test.", ref="5/C13"),
+ "C14": dict(technique="TLA+ spec MC_Schedule (interleavings of two protocol automata) enumerated/simulated by TLC, executed on real instances; lock-step trace comparison by TLC (Trace_Pair); domain-unchanged clause of Trace_Session",
+             text="TLC enumerates all interleavings of two short sessions and simulates long ones; each is executed with two real instances whose traces must equal their solo traces event by event; every algorithm is also run in two fresh interpreters with different PYTHONHASHSEED and compared; the user's domain list must be deep-equal afterwards.",
+             note="Isolation part on partitions that do not consume the shared NumPy stream meaningfully (1-D), as the property states.  Comparison on points, cells and structural events.", ref="5/C14"),
+ "C15": dict(technique="TLA+ spec MC_Schedule (query schedules) enumerated/simulated by TLC + lock-step trace comparison by TLC (Trace_Pair) of relabelled / queried runs",
+             text="Runs with time labels t0+i (t0 = 0, 17) are compared with the t0 = 1 run for all 12 listed algorithms; all schedules of 0..2 recommendation queries after each of 4 rounds (and simulated long schedules) are executed on T_HOO/HCT/VHCT/Zooming/POO and compared, queries dropped, with the query-free run.",
+             note="StoSOO / StroquOOL read the time argument by design and are excluded, as in the property.", ref="5/C15"),
+ "C16": dict(technique="metamorphic pairs (box, affine image) compared in lock step by TLC (Trace_Pair) on rank-coded traces, which are invariant under increasing affine maps",
+             text="Each algorithm x partition is run on a box and on its image under power-of-two scalings, dyadic translations (exact mode: identical encoded traces) and generic affine maps (positions within 3e-9 of the box, identical cells/expansions); Zooming only under exact maps, DOO's default delta only under translations.",
+             note="Sampled configurations; exact equality demanded only where the map commutes with the float arithmetic of the partition.", ref="5/C16"),
 })
 NA_REASON = {
  "C17": "upper bounds of transcendental real functions over a continuum: an enclosure argument; TLA+/TLC has no reals or transcendental functions (DESIGN.md 5/C17)",
